@@ -60,7 +60,7 @@ DEFAULT_WEIGHTS = dict(
 )
 
 # what Spec/RefSem.v covers: everything else is switched off in fragment="refsem"
-REFSEM_OFF = dict(seq_shuffle=0.0, random=0.0, seed_random=0.0, lists=0.0, str_concat_int=0.0)
+REFSEM_OFF = dict(seq_shuffle=0.0, random=0.0, seed_random=0.0, lists=0.0)
 
 
 def _pick(rng, table):
@@ -435,7 +435,7 @@ class Gen:
         if final is not None:
             return out + final
         t = self.target(sc, backward_ok=False)
-        if out and out[-1][0] == "line" and out[-1][3] is None and self.p("line_divert") \
+        if out and out[-1][0] == "line" and out[-1][3] is None and not out[-1][2] and self.p("line_divert") \
                 and not (out[-1][1] and out[-1][1][-1] == ["glue"]):
             out[-1][3] = t
         else:
